@@ -95,6 +95,17 @@ func mapPath(p string, nm map[string]string) string {
 	return strings.Join(parts, "/")
 }
 
+// rootSize mirrors SizeIn of ScanWalk.tla: in even-numbered roots small and oversize regular files swap sizes.
+func rootSize(root int, kind string, size int) int {
+	if root%2 == 0 && kind == "big" {
+		return 2
+	}
+	if root%2 == 0 && kind == "file" {
+		return 6
+	}
+	return size
+}
+
 func concreteSize(abstract int) int {
 	switch {
 	case abstract <= 0:
@@ -320,7 +331,7 @@ func runScanWalk(c *swCase, mode, nmName, tmp string, faultKind int) (obs swObs)
 				case "special":
 					syscall.Mkfifo(cp, 0644)
 				default:
-					os.WriteFile(cp, content(n.K, n.Size, n.Gi, n.P), 0644)
+					os.WriteFile(cp, content(n.K, rootSize(r, n.K, n.Size), n.Gi, n.P), 0644)
 				}
 			}
 			sr := scalibrfs.RealFSScanRoot(rootDir)
@@ -336,7 +347,7 @@ func runScanWalk(c *swCase, mode, nmName, tmp string, faultKind int) (obs swObs)
 		for _, n := range c.Nodes {
 			cp := mapPath(n.P, nm)
 			k := n.K
-			m.nodes[cp] = &mnode{kind: k, data: content(n.K, n.Size, n.Gi, n.P)}
+			m.nodes[cp] = &mnode{kind: k, data: content(n.K, rootSize(r, n.K, n.Size), n.Gi, n.P)}
 			if k == "dir" {
 				m.nodes[cp].data = nil
 			}
